@@ -123,3 +123,114 @@ package stream
 // if it was filtered or the destination confirmed exactly its position.
 //verif:func (*DestinationAckerNode).worker(n, ctx, signalChan, errChan)
 //verif:call[ack-only-confirmed-or-filtered] (*DestinationAckerNode).handleAck requires arg1 == msg && (msg.filtered && arg2 == nil || !msg.filtered && result_of("bytes.Equal", 0) && since("(*DestinationAckerNode).handleAck", "bytes.Equal") == 0)
+
+// ---- SourceAckerNode (C04, C07): what is forwarded to the source ---------------------
+// The ack handler of a message forwards exactly that message's position, in a slice
+// nothing else refers to (the connector keeps the slice in its deferred-ack queue
+// until the position is durably flushed), only while holding the message's turn in
+// the semaphore (tickets are taken in read order), and never after an earlier
+// ack/nack failed.
+//verif:closure of (*SourceAckerNode).registerAckHandler calling Source.Ack (n, ticket, msg) (err)
+//verif:call[own-position-in-fresh-slice] Source.Ack requires len(arg1) == 1 && arg1[0] == msg.Record.Position && fresh(arg1)
+//verif:call[in-turn] Source.Ack requires called("(*Simple).Acquire") && !called("(*Simple).Release")
+//verif:call[nothing-after-a-failure] Source.Ack requires !deref(n).fail
+//verif:call[once] Source.Ack requires count("Source.Ack") == 0
+//verif:ensures[failure-latches] err != nil ==> deref(n).fail
+//verif:ensures[turn-released] called("(*SourceAckerNode).registerAckHandler$1$1")
+
+// A nacked message is acked to the source only after the DLQ handler accepted it.
+//verif:closure of (*SourceAckerNode).registerNackHandler calling Source.Ack (n, ticket, msg, nackMetadata) (err)
+//verif:call[own-position-in-fresh-slice] Source.Ack requires len(arg1) == 1 && arg1[0] == msg.Record.Position && fresh(arg1)
+//verif:call[in-turn] Source.Ack requires called("(*Simple).Acquire") && !called("(*Simple).Release")
+//verif:call[nothing-after-a-failure] Source.Ack requires !deref(n).fail
+//verif:call[dlq-accepted-first] Source.Ack requires succeeded("(*DLQHandlerNode).Nack")
+//verif:call[once] Source.Ack requires count("Source.Ack") == 0
+//verif:ensures[failure-latches] err != nil ==> deref(n).fail
+//verif:ensures[turn-released] called("(*SourceAckerNode).registerNackHandler$1$1")
+
+// the deferred epilogues of the two handlers
+//verif:closure of (*SourceAckerNode).registerAckHandler calling (*Simple).Release (err, n, lock)
+//verif:ensures[latch] old(deref(err)) != nil ==> deref(n).fail
+//verif:ensures[keeps] deref(err) == old(deref(err)) && (old(deref(n).fail) ==> deref(n).fail)
+//verif:ensures[released] called("(*Simple).Release")
+//verif:closure of (*SourceAckerNode).registerNackHandler calling (*Simple).Release (err, n, lock)
+//verif:ensures[latch] old(deref(err)) != nil ==> deref(n).fail
+//verif:ensures[keeps] deref(err) == old(deref(err)) && (old(deref(n).fail) ==> deref(n).fail)
+//verif:ensures[released] called("(*Simple).Release")
+
+// Every message read takes its semaphore ticket (its turn in the ack order) before
+// anything else can happen to it: the ticket is taken right after the read, both
+// handlers are registered with that very ticket, and only then is the message sent on.
+//verif:func (*SourceAckerNode).Run(n, ctx) (err)
+//verif:call[ack-handler-gets-this-ticket] (*SourceAckerNode).registerAckHandler requires since("(*SourceAckerNode).registerAckHandler", "(*Simple).Enqueue") == 0 && arg2 == result_of("(*Simple).Enqueue", 0) && arg1 == result_of("$result.stream.(*pubSubNodeBase).Trigger.0", 0) && since("(*Simple).Enqueue", "$result.stream.(*pubSubNodeBase).Trigger.0") == 1
+//verif:call[nack-handler-gets-this-ticket] (*SourceAckerNode).registerNackHandler requires since("(*SourceAckerNode).registerNackHandler", "(*Simple).Enqueue") == 0 && arg2 == result_of("(*Simple).Enqueue", 0) && arg1 == result_of("$result.stream.(*pubSubNodeBase).Trigger.0", 0)
+//verif:call[handlers-before-forwarding] (*pubSubNodeBase).Send requires since("(*pubSubNodeBase).Send", "(*SourceAckerNode).registerAckHandler") == 0 && since("(*pubSubNodeBase).Send", "(*SourceAckerNode).registerNackHandler") == 0
+//verif:loop 0 invariant since("(*SourceAckerNode).registerAckHandler", "(*pubSubNodeBase).Send") == 0 && since("(*SourceAckerNode).registerNackHandler", "(*pubSubNodeBase).Send") == 0
+//verif:call[one-pair-of-handlers-per-message] (*pubSubNodeBase).Send requires since("(*SourceAckerNode).registerAckHandler", "(*pubSubNodeBase).Send") == 1 && since("(*SourceAckerNode).registerNackHandler", "(*pubSubNodeBase).Send") == 1
+
+// Trigger returns usable functions whenever it returns no error.
+//verif:func (*pubSubNodeBase).Trigger(n, ctx, logger, externalErrChan) (trigger, cleanup, err)
+//verif:ensures[usable] err == nil ==> trigger != nil && cleanup != nil
+//verif:func (*subNodeBase).Trigger(n, ctx, logger, errChan) (trigger, cleanup, err)
+//verif:ensures[usable] err == nil ==> trigger != nil && cleanup != nil
+//verif:func (*pubNodeBase).Trigger(n, ctx, logger, externalErrChan, msgFetcher) (trigger, cleanup, err)
+//verif:ensures[usable] err == nil ==> trigger != nil && cleanup != nil
+
+// ---- DLQHandlerNode.Nack (C07, C12): nil means "the record is in the DLQ" -----------
+// SourceAckerNode acks a nacked record to the source as soon as this returns nil, so
+// nil may be returned only after the DLQ handler accepted the write; the write happens
+// only while the node runs, under the node's lock, and only if the nack window still
+// permits it; an exceeded threshold (DLQ enabled) is a fatal error; a failed write
+// marks the node broken.
+//verif:func (*DLQHandlerNode).Nack(n, msg, nackMetadata) (err)
+//verif:assume n.window != nil && winInv(n.window) because "Run builds the window with newDLQWindow (proved to establish winInv) before the node state becomes running; only dlqWindow's own methods (proved to preserve winInv) write it, under n.m"
+//verif:assume nackMetadata.Reason != nil because "Message.Nack is called with the error that caused the nack (dlqRecord would panic on a nil reason)"
+//verif:ensures[nil-only-after-dlq-write] err == nil ==> succeeded("DLQHandler.Write")
+//verif:call[write-only-if-window-permits] DLQHandler.Write requires called("(*Mutex).Lock") && result_of("(*dlqWindow).Nack", 0) && succeeded("(*ValueWatcher).Watch") && count("DLQHandler.Write") == 0
+//verif:ensures[threshold-exceeded-is-fatal] called("(*dlqWindow).Nack") && !result_of("(*dlqWindow).Nack", 0) && n.WindowNackThreshold > 0 ==> is_fatal(err)
+//verif:ensures[threshold-exceeded-is-error] called("(*dlqWindow).Nack") && !result_of("(*dlqWindow).Nack", 0) && nackMetadata.Reason != nil ==> err != nil
+//verif:ensures[not-running-is-error] !succeeded("(*ValueWatcher).Watch") ==> err != nil
+
+//verif:closure of (*DLQHandlerNode).Nack calling (*ValueWatcher).Set (err, n)
+//verif:call[broken-only-on-failure] (*ValueWatcher).Set requires deref(err) != nil && arg1 == dlqHandlerNodeStateBroken
+//verif:ensures[failure-marks-broken] deref(err) != nil ==> called("(*ValueWatcher).Set")
+
+// ---- FanoutNode.select1 (C01, C12): a message taken from the inbound channel is
+// either handed to the (single) outbound channel or nacked - it is never dropped,
+// whatever moment the context is cancelled (a dropped message keeps the source's
+// open-message tracker and the ack-order semaphore waiting for ever).
+//verif:func (*FanoutNode).select1(n, ctx) (err)
+//verif:ensures[held-message-never-dropped] since("$recv.in", "$send.out") == 0 || since("$recv.in", "(*Message).Nack") == 0
+//verif:loop 0 invariant since("$recv.in", "$send.out") == 0 || since("$recv.in", "(*Message).Nack") == 0
+//verif:call[nack-the-held-message] (*Message).Nack requires since("$recv.in", "$send.out") >= 1
+//verif:requires len(n.out) == 1
+
+// ---- FanoutNode.Run, several destinations (C01, C05) ----------------------------------
+// Per message one goroutine per branch is started (after wg.Add), and the next message
+// is not taken before all of them were waited for (order across branches); a branch
+// releases the barrier only after it handed its clone over or nacked it; the original
+// message is acked only by the branch whose ack brought the counter to zero (every
+// branch acked), a branch nack goes to the original with its reason.
+//verif:func (*FanoutNode).Run(n, ctx) (err)
+//verif:call[one-goroutine-per-branch] go:(*FanoutNode).Run$2 requires 0 <= arg0 && arg0 < len(n.out)
+//verif:call[add-before-spawn] go:(*FanoutNode).Run$2 requires called("(*WaitGroup).Add") && since("go:(*FanoutNode).Run$2", "(*WaitGroup).Add") < len(n.out)
+//verif:call[wait-for-every-branch] (*WaitGroup).Wait requires since("(*WaitGroup).Wait", "(*WaitGroup).Add") == 0
+//verif:loop 0 invariant since("go:(*FanoutNode).Run$2", "(*WaitGroup).Wait") == 0 || !called("go:(*FanoutNode).Run$2")
+//verif:loop 1 vars k=rangeindex
+//verif:loop 1 invariant called("(*WaitGroup).Add") && since("go:(*FanoutNode).Run$2", "(*WaitGroup).Add") == k + 1 && since("(*WaitGroup).Wait", "(*WaitGroup).Add") == 0
+//verif:safety bounds, div, assert, mapwrite, makeslice, nilcall
+//verif:ensures[no-branch-left-unwaited] since("go:(*FanoutNode).Run$2", "(*WaitGroup).Wait") == 0 || !called("go:(*FanoutNode).Run$2")
+
+//verif:closure of (*FanoutNode).Run calling (*WaitGroup).Done (wg, msg, n, remainingAcks, ctx, i)
+//verif:requires 0 <= i && i < len(deref(n).out)
+//verif:call[barrier-released-after-handover] (*WaitGroup).Done requires called("$send.out") || called("(*Message).Nack")
+//verif:send[clone-goes-downstream] out requires sentval == result_of("(*Message).Clone", 0) && called("(*Message).RegisterAckHandler") && called("(*Message).RegisterNackHandler")
+//verif:call[clone-of-the-original] (*Message).Clone requires arg0 == deref(msg)
+//verif:call[cancelled-branch-nacks-its-clone] (*Message).Nack requires arg0 == result_of("(*Message).Clone", 0)
+
+//verif:closure of (*FanoutNode).Run calling AddInt32 (remainingAcks, msg) (err)
+//verif:call[counts-itself-once] AddInt32 requires arg0 == remainingAcks && arg1 == -1 && count("AddInt32") == 0
+//verif:call[original-acked-only-when-all-branches-acked] (*Message).Ack requires arg0 == msg && (result_of("AddInt32", 0) == 0 || called("(*Message).Acked"))
+
+//verif:closure of (*FanoutNode).Run calling $2$2 (msg, nm) (err)
+//verif:call[branch-nack-reaches-original] (*Message).Nack requires arg0 == msg && arg1 == nm.Reason && arg2 == nm.NodeID
